@@ -1,8 +1,10 @@
 """Human-written texts for MANIFEST.json."""
 ENGINES = [
+    {"name": "S3-evmsim", "path": "/verif/sim/evmsim", "serves_properties": ["C02", "C05", "C12"],
+     "kind_free_text": "seeded EVM/state simulation through the real core.ApplyTransaction: grammar-built contract DAGs, every frame 'crashed' by gas cut at each recorded interpreter step / REVERT / INVALID, world digest vs deep-copy model; block batch on a drawn storage engine"},
     {"name": "S4-poolsim", "path": "/verif/sim/poolsim", "serves_properties": ["C19"],
      "kind_free_text": "controlled-scheduler simulation of the real TxPool: tx_pool.go is AST-rewritten at build time (tools/rewrite) so that every lock, channel op, select, go statement, ticker, clock read and pool-map range is a scheduler decision drawn from the tape; real goroutines, one runnable at a time, inside a synctest bubble; optional -race build"},
-    {"name": "S5-chainsim", "path": "/verif/sim/chainsim", "serves_properties": ["C04", "C06", "C07", "C08", "C09", "C10", "C11", "C16"],
+    {"name": "S5-chainsim", "path": "/verif/sim/chainsim", "serves_properties": ["C01", "C04", "C06", "C07", "C08", "C09", "C10", "C11", "C16"],
      "kind_free_text": "whole-node deterministic simulation: three real core.Core (prime/region/zone) in one synctest bubble; seeded scheduler owns mining, head selection (forks/reorgs), delivery, storage (SimDisk) and the worker refresh; rapid tape = replay"},
     {"name": "S2-triesim", "path": "/verif/sim/triesim", "serves_properties": ["C18"],
      "kind_free_text": "seeded trie histories with restart / crash-at-write-prefix / proof-corruption faults against a map model with per-root snapshots"},
@@ -86,5 +88,30 @@ META = {
         "technique": "deterministic whole-node simulation; scope invariants on account state and UTXO set after every head change",
         "text": "Exploration of the state clauses: no out-of-zone or Qi-ledger account appears in zone state, every UTXO owner is an in-zone Qi address, in seeded histories with conversions, Qi coinbases and reorgs.",
         "note": "Constructor/decoder agreement and CREATE/CREATE2 scoping are not decided here.",
+    },
+    "C01": {
+        "engine": "S5-chainsim", "design_ref": "DESIGN.md section 4 C01",
+        "technique": "deterministic whole-node simulation on a drawn storage engine; reference UTXO model over accepted blocks plus adversarial transactions driven through the validator on the engine's batch",
+        "text": ("Exploration: seeded histories with Qi spends through the real mempool/worker/validator on memorydb, leveldb and pebble; every accepted block is checked against a UTXO model (spent once, owner-authorised with an independently verified signature, unlocked, nothing from nothing), "
+                 "and the validator's verdict on adversarial transactions (double spends inside a tx / inside a block, wrong key, locked, overspend) is compared with the model on each engine."),
+        "note": "Trusted: the model (150 lines) and btcec signature verification. Supply accounting of coinbase/conversion amounts is bounded by the ETX value only, not re-derived.",
+    },
+    "C12": {
+        "engine": "S3-evmsim", "design_ref": "DESIGN.md section 4 C12",
+        "technique": "deterministic simulation of transaction execution with frame-failure injection at every recorded interpreter step (gas cuts), explicit REVERT/INVALID, nested snapshots; world digest vs deep-copy reference model; exhaustive short snapshot/revert sequences",
+        "text": "Fault enumeration inside each generated program (every depth-1 step boundary and inner-frame step becomes an out-of-gas cut) and exhaustive enumeration of short StateDB mutation/snapshot/revert sequences; exploration over programs. The digest covers every clause of the property including pending ETXs and batch-visible lockup records.",
+        "note": "Three open known findings (suicide size counter not journaled; creation not reverted on code-store out-of-gas; lockup claim not undone on revert) - all consensus-changing to repair, so recorded rather than fixed.",
+    },
+    "C05": {
+        "engine": "S3-evmsim", "design_ref": "DESIGN.md section 4 C05",
+        "technique": "deterministic simulation of transaction execution with gas-cut fault injection; per-operation atomicity oracle and outbound-list model",
+        "text": "Fault enumeration of cut points within generated programs reaching ETX / CONVERT / out-of-scope CALL / lockup precompile with malformed blobs, ineligible destinations, zero/overflowing amounts, insufficient balance or gas, on both sides of each fork; status, debit, ETX record and stack height are checked per operation and the receipt's outbound list against the model.",
+        "note": "Open known findings: opETX debit-before-failure exits (two witnesses) and pre-fork uint256 wrap-around.",
+    },
+    "C02": {
+        "engine": "S3-evmsim", "design_ref": "DESIGN.md section 4 C02",
+        "technique": "deterministic simulation of transaction execution with gas-cut fault injection; conservation oracle over the committed trie",
+        "text": "Exploration: for every pass (ample gas and every cut) the sum of all balances in the committed trie is compared with the protocol formula; the hard verdict is 'nothing created'.",
+        "note": "Open known findings shared with C05/C12 (opETX debit without ETX, code-store out-of-gas, pre-fork overflow). System-level conservation across chains is not decided.",
     },
 }
